@@ -58,6 +58,7 @@ except ImportError:
     import json
     JSONDecodeError = ValueError
 
+from spyne import BODY_STYLE_BARE
 from spyne.error import ValidationError
 from spyne.error import ResourceNotFoundError
 
@@ -363,7 +364,11 @@ class _SpyneJsonRpc1(JsonDocument):
                     ctx.in_header = headers
             # decode method arguments
             if ctx.in_body_doc is None:
-                ctx.in_object = [None] * len(body_class._type_info)
+                if ctx.descriptor.body_style is BODY_STYLE_BARE:
+                    # the message is the (single) argument itself
+                    ctx.in_object = None
+                else:
+                    ctx.in_object = [None] * len(body_class._type_info)
             else:
                 ctx.in_object = self._doc_to_object(ctx, body_class,
                                                 ctx.in_body_doc, self.validator)
